@@ -921,7 +921,7 @@ func checkHierarchical(p *core.Prog, r *core.Report, ds *core.Describer, f *ssa.
 					if _, ok := ref.(*ssa.Slice); ok {
 						path = prm
 					}
-					if c, ok := ref.(*ssa.Call); ok && c.Call.StaticCallee() != nil && c.Call.StaticCallee().Name() == "LastIndex" {
+					if c, ok := ref.(*ssa.Call); ok && c.Call.StaticCallee() != nil && (c.Call.StaticCallee().Name() == "LastIndex" || c.Call.StaticCallee().Name() == "LastIndexByte") {
 						path = prm
 					}
 				}
@@ -1054,6 +1054,10 @@ func checkHierarchical(p *core.Prog, r *core.Report, ds *core.Describer, f *ssa.
 				if s, ok := constString(c.Call.Args[1]); ok && s == "." {
 					lastIndex = c
 				}
+			}
+			// the byte form of the same search
+			if c.Call.StaticCallee().Name() == "LastIndexByte" && c.Call.Args[0] == ssa.Value(path) && core.IsIntConst(c.Call.Args[1], '.') {
+				lastIndex = c
 			}
 		}
 	})
@@ -1332,11 +1336,12 @@ func checkRecursion(p *core.Prog, r *core.Report, ds *core.Describer, f *ssa.Fun
 					if cd.Op == "" || cd.X.Val != ssa.Value(lastIndex) {
 						return -1
 					}
-					if cd.Y.Kind != "const" || cd.Y.Name != "-1" {
+					if cd.Y.Kind != "const" || (cd.Y.Name != "-1" && cd.Y.Name != "0") {
 						return -1
 					}
 					for s := 0; s < 2; s++ {
-						if cd.RelOnEdge(s) == "==" {
+						// == -1, or < 0 (the index is -1 or a position)
+						if (cd.Y.Name == "-1" && cd.RelOnEdge(s) == "==") || (cd.Y.Name == "0" && cd.RelOnEdge(s) == "<") {
 							return s
 						}
 					}
@@ -1346,6 +1351,14 @@ func checkRecursion(p *core.Prog, r *core.Report, ds *core.Describer, f *ssa.Fun
 			}
 			*sawTop = true
 			continue
+		}
+		// strings.TrimSuffix(path, path[i:]) is path[:i] (TrimRight, which takes a set of characters, is not)
+		if tc, isCall := lf.V.(*ssa.Call); isCall && core.CalleeName(tc.Common()) == "strings.TrimSuffix" && len(tc.Call.Args) == 2 && tc.Call.Args[0] == ssa.Value(path) {
+			if suf, isSl := tc.Call.Args[1].(*ssa.Slice); isSl && suf.X == ssa.Value(path) && suf.High == nil && lastIndex != nil && suf.Low == ssa.Value(lastIndex) {
+				r.Hold("C19.4", lc+"|shortened-path", p.Pos(c.Pos()), "fallback with path minus its last component (TrimSuffix(path, path[i:]))")
+				*sawShort = true
+				continue
+			}
 		}
 		sl, ok := lf.V.(*ssa.Slice)
 		if !ok || sl.X != ssa.Value(path) {
